@@ -45,12 +45,15 @@ OkUniqueRows(c) ==
 \* ------------------------------------------------------------- group_rows
 \* require_count = -1 (None): groups partition all positions into the classes
 \* require_count = k        : exactly the classes of size k, one row per group
-\* an empty index group (returned for empty input) carries no claim about any row and is ignored
+\* a group / block is a class of a partition: it is never empty (the partition of an empty
+\* input has no class at all); an empty index group is rejected by HasEmpty
 NonEmpty(g) == SelectSeq(g, LAMBDA x : Len(x) > 0)
+HasEmpty(g) == \E a \in 1..Len(g) : Len(g[a]) = 0
 GroupsAsSets(g0) == LET g == NonEmpty(g0) IN {Plus1(g[k]) : k \in 1..Len(g)}
 OkGroupRows(c) ==
     LET d == c.data  g == c.res  k == c.require_count IN
-    IF \E a \in 1..Len(g) : ~Distinct(g[a]) THEN "group_repeats_index"
+    IF HasEmpty(g) THEN "empty_group"
+    ELSE IF \E a \in 1..Len(g) : ~Distinct(g[a]) THEN "group_repeats_index"
     ELSE IF Len(NonEmpty(g)) # Cardinality(GroupsAsSets(g)) THEN "duplicate_groups"
     ELSE IF k = -1 THEN
          IF GroupsAsSets(g) # Classes(d) THEN "groups_are_the_classes" ELSE "ok"
@@ -62,7 +65,8 @@ OkGroup(c) ==
     LET d == c.data  g == c.res
         want == {C \in Classes(d) : (c.min_len = 0 \/ Cardinality(C) >= c.min_len)
                                    /\ (c.max_len = 0 \/ Cardinality(C) <= c.max_len)} IN
-    IF \E a \in 1..Len(g) : ~Distinct(g[a]) THEN "group_repeats_index"
+    IF HasEmpty(g) THEN "empty_group"
+    ELSE IF \E a \in 1..Len(g) : ~Distinct(g[a]) THEN "group_repeats_index"
     ELSE IF Len(NonEmpty(g)) # Cardinality(GroupsAsSets(g)) THEN "duplicate_groups"
     ELSE IF GroupsAsSets(g) # want THEN "groups_are_the_length_filtered_classes"
     ELSE "ok"
@@ -112,7 +116,8 @@ OkBlocks(c) ==
         runs == IF c.wrap THEN CircularRuns(d) ELSE LinearRuns(d)
         want == {R \in runs : Cardinality(R) >= c.min_len /\ (c.max_len = 0 \/ Cardinality(R) <= c.max_len)
                               /\ (~c.only_nonzero \/ d[First(R)] # 0)} IN
-    IF \E a \in 1..Len(g) : ~Distinct(g[a]) THEN "block_repeats_index"
+    IF HasEmpty(g) THEN "empty_block"
+    ELSE IF \E a \in 1..Len(g) : ~Distinct(g[a]) THEN "block_repeats_index"
     ELSE IF Len(NonEmpty(g)) # Cardinality(GroupsAsSets(g)) THEN "duplicate_blocks"
     ELSE IF GroupsAsSets(g) # want THEN "blocks_are_the_admissible_runs"
     ELSE "ok"
@@ -146,6 +151,72 @@ OkUniqueValueInRow(c) ==
          THEN "one_singleton_per_row"
     ELSE "ok"
 
+
+\* ----------------------------------------------- options of the 1-D uniques
+\* unique_ordered(data, return_index = c.ri, return_inverse = c.rv):
+\* c.vals = returned values (abstract symbols recovered through the inverse embedding),
+\* c.index / c.inverse = the optional results (<<>> when not requested), c.nret = number of
+\* returned arrays (0: a bare array instead of a list)
+FirstsInc(d) == SortSet({First(C) : C \in Classes(d)})          \* 1-based first occurrences, increasing
+OkUniqueOrderedOpt(c) ==
+    LET d == c.data  f == FirstsInc(d)  n == Len(d) IN
+    IF c.nret # (IF c.ri \/ c.rv THEN 1 + (IF c.ri THEN 1 ELSE 0) + (IF c.rv THEN 1 ELSE 0) ELSE 0) THEN "number_of_results"
+    ELSE IF c.vals # [k \in 1..Len(f) |-> d[f[k]]] THEN "values_in_order_of_first_occurrence"
+    ELSE IF c.ri /\ c.index # [k \in 1..Len(f) |-> f[k] - 1] THEN "index_is_first_occurrence"
+    ELSE IF c.rv /\ (Len(c.inverse) # n \/ ~InRange0(c.inverse, Len(f))) THEN "inverse_shape"
+    ELSE IF c.rv /\ (\E k \in Idx(d) : c.vals[c.inverse[k] + 1] # d[k]) THEN "inverse_reconstructs"
+    ELSE "ok"
+
+\* unique_bincount(values, minlength, return_inverse = c.ri, return_counts = c.rc) on an
+\* order-preserving embedding of the abstract symbols (any magnitude, sign and integer dtype):
+\* c.u = sorted distinct values (as symbols), c.inv, c.cnt optional, c.nret as above
+OkBincountOpt(c) ==
+    LET d == c.data  u == c.u IN
+    IF c.nret # (IF c.ri \/ c.rc THEN 1 + (IF c.ri THEN 1 ELSE 0) + (IF c.rc THEN 1 ELSE 0) ELSE 0) THEN "number_of_results"
+    ELSE IF ~Increasing(u) \/ Range(u) # Range(d) THEN "unique_sorted_distinct_values"
+    ELSE IF c.ri /\ (Len(c.inv) # Len(d) \/ ~InRange0(c.inv, Len(u))) THEN "inverse_shape"
+    ELSE IF c.ri /\ (\E k \in Idx(d) : u[c.inv[k] + 1] # d[k]) THEN "inverse_reconstructs"
+    ELSE IF c.rc /\ (Len(c.cnt) # Len(u) \/ \E k \in 1..Len(u) : c.cnt[k] # Cardinality({j \in Idx(d) : d[j] = u[k]}))
+         THEN "counts"
+    ELSE "ok"
+
+\* unique_float(data, return_index, return_inverse, digits): like numpy.unique on the rounded
+\* values: res = <<index, inverse>>, index = first occurrence of every class ordered by value
+OkUniqueFloat(c) ==
+    LET d == c.data  u == c.res[1]  inv == c.res[2]  n == Len(d) IN
+    IF ~InRange0(u, n) THEN "index_range"
+    ELSE IF Plus1(u) # {First(C) : C \in Classes(d)} \/ Len(u) # Cardinality(Classes(d)) THEN "index_is_first_occurrence"
+    ELSE IF ~Increasing([k \in 1..Len(u) |-> d[u[k] + 1]]) THEN "sorted_by_value"
+    ELSE IF Len(inv) # n \/ ~InRange0(inv, Len(u)) THEN "inverse_shape"
+    ELSE IF \E k \in Idx(d) : d[u[inv[k] + 1] + 1] # d[k] THEN "inverse_reconstructs"
+    ELSE "ok"
+
+\* hashable_rows(data, allow_int): c.eq[a][b] = (hash of row a = hash of row b)
+OkHashableRows(c) ==
+    LET d == c.data  n == Len(d) IN
+    IF Len(c.eq) # n THEN "one_hash_per_row"
+    ELSE IF \E a, b \in Idx(d) : c.eq[a][b] # (d[a] = d[b]) THEN "hash_equality_is_row_equality"
+    ELSE "ok"
+
+\* unique_value_in_row(data, unique = c.uniq): only the listed values are looked for
+OkUniqueValueInRowU(c) ==
+    LET d == c.data  r == c.res  U == Range(c.uniq) IN
+    IF Len(r) # Len(d) THEN "shape"
+    ELSE IF \E k \in Idx(d) :
+              LET singles == {j \in Idx(d[k]) : d[k][j] \in U /\ Cardinality({m \in Idx(d[k]) : d[k][m] = d[k][j]}) = 1}
+                  marked == {j \in Idx(d[k]) : r[k][j]} IN
+              ~(Len(r[k]) = Len(d[k]) /\ marked \subseteq singles /\ Cardinality(marked) <= 1 /\ (singles # {} => marked # {}))
+         THEN "one_singleton_per_row"
+    ELSE "ok"
+
+\* purity / repeatability (records of the extended families carry the two flags): the call must
+\* leave its input unchanged and a second identical call must return the same result
+Has(c, f) == f \in DOMAIN c
+OkHistory(c) ==
+    IF Has(c, "pure") /\ ~c.pure THEN "input_mutated"
+    ELSE IF Has(c, "again") /\ ~c.again THEN "second_call_differs"
+    ELSE "ok"
+
 Clause(c) ==
     CASE c.fn = "unique_rows" -> OkUniqueRows(c)
       [] c.fn = "group_rows" -> OkGroupRows(c)
@@ -157,16 +228,23 @@ Clause(c) ==
       [] c.fn = "merge_runs" -> OkMergeRuns(c)
       [] c.fn = "group_min" -> OkGroupMin(c)
       [] c.fn = "unique_value_in_row" -> OkUniqueValueInRow(c)
+      [] c.fn = "unique_ordered_opt" -> OkUniqueOrderedOpt(c)
+      [] c.fn = "unique_bincount_opt" -> OkBincountOpt(c)
+      [] c.fn = "unique_float" -> OkUniqueFloat(c)
+      [] c.fn = "hashable_rows" -> OkHashableRows(c)
+      [] c.fn = "unique_value_in_row_u" -> OkUniqueValueInRowU(c)
       [] OTHER -> "unknown_function"
 
 Init == i = 1
 Next == i < Len(Cases) /\ i' = i + 1
-Report == LET c == Cases[i]  cl == IF c.exc # "" THEN "raised_" \o c.exc ELSE Clause(c)
+Report == LET c == Cases[i]
+              cl == IF c.exc # "" THEN "raised_" \o c.exc
+                    ELSE IF OkHistory(c) # "ok" THEN OkHistory(c) ELSE Clause(c)
           IN IF cl # "ok" THEN PrintT(<<"REJECT", c.id, cl>>) ELSE TRUE
 
 \* internal sanity of the reference (checked on the recorded inputs themselves)
 RefSane == LET c == Cases[i] IN
-           (c.fn \in {"unique_rows", "group_rows", "group"}) =>
+           (c.fn \in {"unique_rows", "group_rows", "group", "hashable_rows", "unique_float"}) =>
                /\ UNION Classes(c.data) = Idx(c.data)
                /\ \A A, B \in Classes(c.data) : A = B \/ A \cap B = {}
 =============================================================================
